@@ -11,6 +11,7 @@ import (
 	"verif/harness/gen"
 	"verif/harness/model"
 	"verif/harness/obs"
+	"verif/harness/run"
 )
 
 func init() {
@@ -175,6 +176,16 @@ func runC14(c *core.Ctx) {
 		}
 		if i%40 == 0 {
 			crossCheck(c, srv, args2, env, p2)
+		}
+		// print | print -l /dev/stdin: the printed log read back through a pipe
+		if i%6 == 0 {
+			pargs := append(append(append([]string{}, base...), "-l", "/dev/stdin"), "print")
+			pp := run.Exec(c.HR, pargs, run.ExecOpts{Dir: srv.Dir, Env: env, Stdin: &P})
+			c.Eval(1)
+			c.Count("print_read_back_through_a_pipe", 1)
+			if pp.Exit != 0 || pp.Out != P {
+				c.Violation("print|pipe-differs-from-file", fmt.Sprintf("print | print -l /dev/stdin does not reproduce the printed log (exit %d %s)", pp.Exit, clip(pp.Serr, 150)), caseDoc{Files: map[string]string{"stdin": P, "hr.conf": files["hr.conf"]}, Args: pargs, Env: env, Observed: resDoc(pp)})
+			}
 		}
 		if i < 2 {
 			c.Sample(map[string]any{"log.yaml": clip(w.LogText, 600), "layout": layout, "via": via, "printed": clip(P, 600)})
